@@ -651,9 +651,7 @@ func (fs *FuncSpec) addClause(t, file string, ln int) error {
 			}
 			fs.Ats = append(fs.Ats, &AtSpec{Callee: point, Ord: ord, Clause: c})
 		case "ghost":
-			if !isSend && !isMapUpd {
-				return fmt.Errorf("ghost updates are supported at send and map-update sites only")
-			}
+			// supported at send, map-update and call sites
 			k := strings.Index(b, "=")
 			if k < 0 {
 				return fmt.Errorf("at send CH: ghost NAME = expr")
